@@ -682,6 +682,10 @@ class Fxp():
             val = val.val * 2**(self.n_frac - val.n_frac)
             raw = True
 
+            if not (vdtype == complex or np.issubdtype(vdtype, np.complexfloating)):
+                # type of raw value is its own: a re-scaled (float) raw value must not be cast to int before rounding
+                vdtype = None
+
         elif isinstance(val, (int, float, complex)):
             vdtype = type(val)
 
